@@ -1,10 +1,15 @@
 /-
-Tie for C17: curve constants and source snapshot of secp256k1.go; the exported copy
-pkg/slip10/btccurve/secp256k1.go must be byte-identical to the internal one.
+Tie for C17: curve constants of secp256k1.go (regenerated from init()); the exported copy
+pkg/slip10/btccurve/secp256k1.go must be byte-identical to the internal one; and — since stage 10 of the translator — the
+nine curve functions regenerated AS CODE (`Iota/Gen/Secp256k1Code.lean`, *big.Int as Int under a checked ownership
+discipline) and proved equal to the model for all inputs (`Iota/Tie/SecpCode.lean`, re-exported below as `code_*`).  The
+functions are no longer pinned by source text.
 -/
 import Iota.Gen.Secp256k1
 import Iota.Tie.Expect
 import Iota.Model.Secp256k1
+import Iota.Tie.SecpCode
+import Iota.Tie.SecpCodeExterns
 
 namespace Iota.Tie.C17
 open Iota
@@ -21,23 +26,77 @@ theorem constants :
 
 theorem copies_identical : Gen.Secp256k1.copiesIdentical = true := by decide
 
+/-- `init()`, which sets the curve constants, is unchanged (its hex literals are the regenerated facts of `constants`) -/
 theorem src :
-    Gen.Secp256k1.src_btccurve_koblitzCurve_IsOnCurve = Expect.Secp256k1_src_btccurve_koblitzCurve_IsOnCurve ∧
-    Gen.Secp256k1.src_btccurve_koblitzCurve_affineFromJacobian = Expect.Secp256k1_src_btccurve_koblitzCurve_affineFromJacobian ∧
-    Gen.Secp256k1.src_btccurve_zForAffine = Expect.Secp256k1_src_btccurve_zForAffine ∧
-    Gen.Secp256k1.src_btccurve_koblitzCurve_Add = Expect.Secp256k1_src_btccurve_koblitzCurve_Add ∧
-    Gen.Secp256k1.src_btccurve_koblitzCurve_addJacobian = Expect.Secp256k1_src_btccurve_koblitzCurve_addJacobian ∧
-    Gen.Secp256k1.src_btccurve_koblitzCurve_Double = Expect.Secp256k1_src_btccurve_koblitzCurve_Double ∧
-    Gen.Secp256k1.src_btccurve_koblitzCurve_doubleJacobian = Expect.Secp256k1_src_btccurve_koblitzCurve_doubleJacobian ∧
-    Gen.Secp256k1.src_btccurve_koblitzCurve_ScalarMult = Expect.Secp256k1_src_btccurve_koblitzCurve_ScalarMult ∧
-    Gen.Secp256k1.src_btccurve_koblitzCurve_ScalarBaseMult = Expect.Secp256k1_src_btccurve_koblitzCurve_ScalarBaseMult ∧
-    Gen.Secp256k1.src_btccurve_init = Expect.Secp256k1_src_btccurve_init :=
-  ⟨rfl, rfl, rfl, rfl, rfl, rfl, rfl, rfl, rfl, rfl⟩
+    Gen.Secp256k1.src_btccurve_init = Expect.Secp256k1_src_btccurve_init := rfl
 
 /-- everything else the package declares (imports, constants, types, variables, build constraints and the functions not
 pinned one by one) is unchanged too: no declaration of the modelled packages can change without a tie theorem failing. -/
 theorem rest :
     Gen.Secp256k1.rest_btccurve = Expect.Secp256k1_rest_btccurve :=
   rfl
+
+/-! ### the curve functions, translated as code (`Gen.Secp256k1Code.btccurve.*`), equal the model for all inputs
+Proofs: `Iota/Tie/SecpCode.lean`.  The receiver's fields are parameters of the generated functions, instantiated with the
+model's constants (`constants` above: they are what `init()` sets).  `big_ModInverse` is a parameter as well; `Externs inv`
+says that on the modulus P it is the model's extended Euclid, which every function with the DOCUMENTED behaviour of
+`(*big.Int).ModInverse` satisfies (`externs_of_spec`), and which can be met (`externs_satisfiable`). -/
+
+open Iota.Gen.Secp256k1Code.btccurve
+open Iota.Tie.SecpCode (Externs ExternsSpec)
+open Iota.Secp256k1 (P B Gx Gy)
+
+/-- **`IsOnCurve`, translated statement by statement, returns the model's verdict for ALL integers and never panics.** -/
+theorem code_isOnCurve (x y : Int) : koblitzCurve_IsOnCurve P B x y = some (Secp256k1.isOnCurve x y) :=
+  SecpCode.code_isOnCurve x y
+
+theorem code_zForAffine (x y : Int) : zForAffine x y = Secp256k1.zForAffine x y := SecpCode.code_zForAffine x y
+
+/-- **`doubleJacobian` (dbl-2009-l) as code = model, for all integers; never panics.** -/
+theorem code_doubleJacobian (x y z : Int) :
+    koblitzCurve_doubleJacobian P x y z = some (Secp256k1.doubleJacobian x y z) := SecpCode.code_doubleJacobian x y z
+
+/-- **`addJacobian` (add-2007-bl with the identity and doubling cases) as code = model, for all integers; never panics.** -/
+theorem code_addJacobian (x1 y1 z1 x2 y2 z2 : Int) :
+    koblitzCurve_addJacobian P x1 y1 z1 x2 y2 z2 = some (Secp256k1.addJacobian x1 y1 z1 x2 y2 z2) :=
+  SecpCode.code_addJacobian x1 y1 z1 x2 y2 z2
+
+/-- **`affineFromJacobian` as code = model, panic outcome included** (`none` exactly when `ModInverse` returns nil for a
+`z ≠ 0`, `code_affineFromJacobian_panics_iff`). -/
+theorem code_affineFromJacobian {inv : Int → Int → Option Int} (E : Externs inv) (x y z : Int) :
+    koblitzCurve_affineFromJacobian inv P x y z = Secp256k1.affineFromJacobian x y z :=
+  SecpCode.code_affineFromJacobian E x y z
+
+theorem code_affineFromJacobian_panics_iff {inv : Int → Int → Option Int} (E : Externs inv) (x y z : Int) :
+    koblitzCurve_affineFromJacobian inv P x y z = none ↔ z ≠ 0 ∧ Secp256k1.modInverse z P = none :=
+  SecpCode.code_affineFromJacobian_panics_iff E x y z
+
+/-- **The exported `Add` as code = the model's `add`, for all integers.** -/
+theorem code_add {inv : Int → Int → Option Int} (E : Externs inv) (x1 y1 x2 y2 : Int) :
+    koblitzCurve_Add inv P x1 y1 x2 y2 = Secp256k1.add x1 y1 x2 y2 := SecpCode.code_add E x1 y1 x2 y2
+
+/-- **The exported `Double` as code = the model's `double`.** -/
+theorem code_double {inv : Int → Int → Option Int} (E : Externs inv) (x1 y1 : Int) :
+    koblitzCurve_Double inv P x1 y1 = Secp256k1.double x1 y1 := SecpCode.code_double E x1 y1
+
+/-- **The exported `ScalarMult` as code — the double-and-add loop over the bits of every byte of the scalar — = the model's
+`scalarMult`, for all integers and EVERY byte string** (`bytes_surj`: every `List (BitVec 8)` is such a `k`). -/
+theorem code_scalarMult {inv : Int → Int → Option Int} (E : Externs inv) (bx by_ : Int) (k : List UInt8) :
+    koblitzCurve_ScalarMult inv P bx by_ (k.map UInt8.toBitVec) = Secp256k1.scalarMult bx by_ k :=
+  SecpCode.code_scalarMult E bx by_ k
+
+theorem code_scalarBaseMult {inv : Int → Int → Option Int} (E : Externs inv) (k : List UInt8) :
+    koblitzCurve_ScalarBaseMult inv P Gx Gy (k.map UInt8.toBitVec) = Secp256k1.scalarBaseMult k :=
+  SecpCode.code_scalarBaseMult E k
+
+theorem bytes_surj (k : List (BitVec 8)) : ∃ k' : List UInt8, k'.map UInt8.toBitVec = k := SecpCode.bytes_surj k
+
+/-- the assumption about `ModInverse` follows from its documented behaviour (inverse in `[0, n)` when it exists, nil only
+when `g` and `n` are not coprime) … -/
+theorem externs_of_spec {inv : Int → Int → Option Int} (S : ExternsSpec inv) : Externs inv := S.toExterns
+
+/-- … and can be met: the model's extended Euclid has that behaviour for every modulus below 2^511 -/
+theorem externs_satisfiable : ExternsSpec Secp256k1.modInverse ∧ Externs Secp256k1.modInverse :=
+  ⟨SecpCode.externsSpec_inhabited, SecpCode.externs_inhabited⟩
 
 end Iota.Tie.C17
